@@ -1796,12 +1796,8 @@ type OtherwisePatternDef struct {
 func (patternMatchingSelf PatternMatching) MatchFor(inValue interface{}) interface{} {
 	for _, pattern := range patternMatchingSelf.patterns {
 		value := inValue
-		maybe := Maybe.Just(inValue)
-		if maybe.IsKind(reflect.Ptr) {
-			ptr := maybe.ToPtr()
-			if reflect.TypeOf(*ptr).Kind() == (reflect.TypeOf(CompData{}).Kind()) {
-				value = *ptr
-			}
+		if compData, ok := inValue.(*CompData); ok && compData != nil {
+			value = *compData
 		}
 
 		if pattern.Matches(value) {
